@@ -119,3 +119,8 @@ def stats(cases, obsI):
         k = c.meta.get("kind", "?") + (":err" if (o or "").startswith("E") else "")
         d[k] = d.get(k, 0) + 1
     return d
+
+
+def shrinkable(c, ai):
+    # argument 0 is the algorithm index; schedule events keep their "D " prefix
+    return False
